@@ -497,3 +497,81 @@ Proof.
     unfold hdr in E1. cbn [ty_of] in E1 |- *. rewrite E1. cbn [app]. rewrite indent_tail_cons, E2. reflexivity.
   - discriminate S.
 Qed.
+
+(** * Top level *)
+Lemma rem_top depth : rem depth 0 depth.
+Proof. unfold rem. destruct (Z_lt_dec depth 0); [left|right]; cbn; lia. Qed.
+
+Lemma path_ok_nil m : path_ok m [].
+Proof. reflexivity. Qed.
+
+Lemma render_root o v : render_rel o 0 (mk_entry 0 [] [] (Some v)) = hdr o v.
+Proof. reflexivity. Qed.
+
+Theorem Stat_report : forall data depth maxItem o,
+  match data with Some v => lsupported v | None => True end ->
+  StatLines data depth maxItem o = Some (spec_lines data depth maxItem o).
+Proof.
+  intros [v|] depth m o S; [|reflexivity].
+  cbn [StatLines spec_lines].
+  rewrite (stat_node o m v S 0%nat [] depth depth (path_ok_nil m) (rem_top depth)).
+  rewrite listing_eq. cbn [filter].
+  rewrite (rem_visible depth m 0%nat [] [] (Some v) depth (rem_top depth) (path_ok_nil m)).
+  cbn [map]. rewrite <- R_0, <- render_rel_0, render_root. reflexivity.
+Qed.
+
+Lemma join_nl_spec lines : join_nl lines = spec_join lines.
+Proof.
+  destruct lines as [|h t]; [reflexivity|]. cbn [spec_join].
+  revert h. induction t as [|s t IH]; intros h.
+  - cbn [join_nl flat_map]. rewrite app_nil_r. reflexivity.
+  - change (join_nl (h :: s :: t)) with (h ++ 10 :: join_nl (s :: t)).
+    rewrite IH. cbn [flat_map]. reflexivity.
+Qed.
+
+Theorem StatText_report : forall data depth maxItem o,
+  match data with Some v => lsupported v | None => True end ->
+  StatText data depth maxItem o = Some (spec_text data depth maxItem o).
+Proof.
+  intros data depth m o S. unfold StatText, spec_text.
+  rewrite (Stat_report data depth m o S), join_nl_spec. reflexivity.
+Qed.
+
+(** the first line: type, ": ", the number [Of] returns *)
+Theorem Stat_first_line_text : forall v depth maxItem n,
+  lsupported v -> Of (Some (erase v)) = Some n ->
+  exists rest, StatLines (Some v) depth maxItem no_opt = Some ((ty_of v ++ s_colon ++ dec n) :: rest).
+Proof.
+  intros v depth m n S HO.
+  cbn [Of Of_gen] in HO. change (sizeof_gen false (erase v)) with (sizeof (erase v)) in HO.
+  rewrite (sizeof_structural _ S) in HO. injection HO as <-.
+  cbn [StatLines].
+  rewrite (stat_node no_opt m v S 0%nat [] depth depth (path_ok_nil m) (rem_top depth)).
+  eexists. reflexivity.
+Qed.
+
+(** depth 0: the header alone *)
+Theorem Stat_depth0 : forall v maxItem o,
+  lsupported v -> StatLines (Some v) 0 maxItem o = Some [hdr o v].
+Proof.
+  intros v m o S. cbn [StatLines]. rewrite stat_eq, (sizeof_structural _ S). reflexivity.
+Qed.
+
+Lemma filter_all {A} (p : A -> bool) l : (forall x, In x l -> p x = true) -> filter p l = l.
+Proof.
+  induction l as [|x t IH]; intros H; cbn [filter]; [reflexivity|].
+  rewrite (H x (or_introl eq_refl)). f_equal. apply IH. intros y Hy. apply H. right; exact Hy.
+Qed.
+
+(** no limit in effect: every node of the value has its line, in pre-order *)
+Theorem Stat_complete : forall v depth maxItem o,
+  lsupported v -> depth < 0 ->
+  (forall e, In e (listing v 0 [] []) -> forallb (fun i => i <? maxItem) (e_idxs e) = true) ->
+  StatLines (Some v) depth maxItem o = Some (map (render o) (listing v 0 [] [])).
+Proof.
+  intros v depth m o S Hd Hall.
+  rewrite (Stat_report (Some v) depth m o S). cbn [spec_lines]. do 2 f_equal.
+  apply filter_all.
+  intros e He. unfold visible. rewrite (Hall e He).
+  replace (depth <? 0) with true by (symmetry; apply Z.ltb_lt; exact Hd). reflexivity.
+Qed.
